@@ -45,6 +45,15 @@ class SendProto(Suite):
                         e["size"] = 0
                         e.pop("hole", None)
                         e["openerr"] = True
+            elif rng.random() < 0.15:
+                # a view that announces a size its readers do not deliver (a file that grew or shrank after it was listed, procfs-style
+                # entries of size 0): the answer is what the reader yields
+                for e in tree:
+                    if e["t"] == "file" and rng.random() < 0.3:
+                        real = e.get("size", 0) + e.get("hole", 0)
+                        e["asize"] = rng.choice([0, 0, real + 1, max(real - 1, 0), 1])
+                        if real == 0:
+                            e["size"] = rng.choice([1, 5, 100])
             if small_reads:
                 # (1..100-byte reads: no sparse tails of tens of kilobytes, the acceptor's history grows with every DATA event)
                 for e in tree:
@@ -591,6 +600,22 @@ class Hostile(Suite):
                             "uid": 0, "gid": 0, "mt": gen.MTIMES[0], "mode": 0o777})
                 dst.sort(key=lambda e: gen.pathkey(bytes.fromhex(e["p"])))
                 answer = True
+            if rng.random() < 0.05 and "metaonly" not in opt and not any(x.get("stat") and bytes.fromhex(x["stat"]["p"]).split(b"/")[0] == b"mim" for x in script):
+                # the peer knows a symlink of the destination and announces a DIRECTORY that mimics it in every field a comparison might
+                # look at (link name, size, time stamp, owner, permission bits), with a child below it: the link has to go
+                tgt = rng.choice([b"/outside/d", b"/outside", b"../../../outside/d"])
+                mim = {"p": hx(b"mim"), "mode": (1 << 31) | 0o777, "uid": 0, "gid": 0, "size": len(tgt), "mt": gen.MTIMES[0], "ln": hx(tgt), "dmaj": 0, "dmin": 0, "x": []}
+                kid = {"p": hx(b"mim/" + rng.choice([b"new", b"g", b"f"])), "mode": 0o644, "uid": 0, "gid": 0, "size": rng.choice([0, 3]), "mt": gen.MTIMES[1],
+                       "ln": "", "dmaj": 0, "dmin": 0, "x": []}
+                end = [x for x in script if x["t"] == "STAT" and not x.get("stat")]
+                body = [x for x in script if not (x["t"] == "STAT" and not x.get("stat"))]
+                if all(x["t"] == "STAT" for x in body):
+                    body += [{"t": "STAT", "stat": mim}, {"t": "STAT", "stat": kid}]
+                    body.sort(key=lambda x: gen.pathkey(bytes.fromhex(x["stat"]["p"])))
+                    script = body + end
+                    dst = [e for e in dst if bytes.fromhex(e["p"]).split(b"/")[0] != b"mim"]
+                    dst.append({"p": hx(b"mim"), "t": "symlink", "ln": hx(tgt), "uid": 0, "gid": 0, "mt": gen.MTIMES[0], "mode": 0o777})
+                    dst.sort(key=lambda e: gen.pathkey(bytes.fromhex(e["p"])))
             op = {"op": "hostile", "script": script, "dst": dst, "answer": answer, "opt": opt}
             if answer and not (script and mut < 0.75) and not forced_dst and "metaonly" not in opt and rng.random() < 0.3:
                 # an otherwise well-formed sender that sends more content for an id AFTER it has terminated that id's answer
